@@ -507,6 +507,28 @@ fn do_replay(world: &World, path: &str) -> i32 {
     if v.pointer("/info/source").and_then(|x| x.as_str()) == Some("ubprobe") {
         exec::LEAN.store(v.pointer("/info/lean_level").and_then(|x| x.as_u64()).unwrap_or(2) as u8, std::sync::atomic::Ordering::Relaxed);
     }
+    if let Some(pf) = v.pointer("/info/prefix") {
+        // the violation depends on what the same thread executed before (state the code under test keeps
+        // between calls): the replay is the schedule prefix itself — the runs first..=last of the recorded
+        // seed, every execution of each in plan order, on one thread
+        let seed = v.pointer("/info/seed").and_then(|x| x.as_u64()).unwrap_or(0);
+        let (a, r) = (pf.get("first_run").and_then(|x| x.as_u64()).unwrap_or(0), pf.get("last_run").and_then(|x| x.as_u64()).unwrap_or(0));
+        let tier = if pf.get("tier").and_then(|x| x.as_str()) == Some("thorough") { Tier::Thorough } else { Tier::Quick };
+        println!("replaying {}: runs {}..={} of seed {} in order on one thread", path, a, r, seed);
+        let mut st = Stats::new(world.table.len());
+        for run in a..=r {
+            if let Some((_, _, g)) = one_run(world, generate(world, seed, run), tier, &[], &mut st).violation {
+                println!("REPLAY-VIOLATION check={} record={} :: run {}: {}", g.check, g.rec, run, g.detail);
+                if !want.is_empty() && want != g.check {
+                    println!("note: the file recorded check {} but {} fails now", want, g.check);
+                }
+                println!("VIOLATION property={} replay={}", PROPERTY, path);
+                return 1;
+            }
+        }
+        println!("REPLAY-OK: the recorded prefix no longer violates {}", PROPERTY);
+        return 0;
+    }
     if v.pointer("/info/concurrent").and_then(|x| x.as_bool()) == Some(true) {
         println!("replaying {} with two threads executing the history at the same time", path);
         return match exec_concurrently(world, &t, &f) {
@@ -568,6 +590,9 @@ struct Args {
     miri_on_demand: Option<String>,
     /// alarm-path self-test child: run with a deliberately wrong reference model (1: write phase, 2: read phase)
     canary: u8,
+    /// this process is the single-worker re-search spawned after a violation that did not replay: only
+    /// the seeded batch, from a fresh process state, on one thread
+    research: bool,
     /// ubprobe: 2 = codec calls only, 1 = also byte views and size checks (cross-target runs)
     lean_level: u8,
 }
@@ -602,6 +627,7 @@ fn parse_args() -> Args {
         miri_workspace: None,
         miri_on_demand: None,
         canary: 0,
+        research: false,
         lean_level: 2,
     };
     let mut it = std::env::args().skip(1);
@@ -642,6 +668,7 @@ fn parse_args() -> Args {
             "--miri-probe" => a.miri_workspace = Some(val()),
             "--miri-on-demand" => a.miri_on_demand = Some(val()),
             "--canary" => a.canary = val().parse().unwrap_or(1),
+            "--research" => a.research = true,
             "--lean-level" => a.lean_level = val().parse().unwrap_or(2),
             "--codec-only" => a.codec_only = true,
             "--also" => {
@@ -973,12 +1000,13 @@ fn cmd_run(world: &World, args: &Args) -> i32 {
         Tier::Quick => 2_000.min(runs),
         Tier::Thorough => 5_000.min(runs),
     };
+    let det_n = if args.research { 0 } else { det_n };
     let d1 = digests_of(world, args.seed, det_n, 1, Tier::Quick);
     let dn = digests_of(world, args.seed, det_n, args.workers.max(2), Tier::Quick);
     let mut det_mismatch = d1.iter().zip(dn.iter()).filter(|(a, b)| a != b).count() + (d1.len() as i64 - dn.len() as i64).unsigned_abs() as usize;
     let mut det_compared = d1.len();
     let mut fresh_process = json!(null);
-    if args.tier == Tier::Thorough {
+    if args.tier == Tier::Thorough && !args.research {
         if let Ok(me) = std::env::current_exe() {
             match spawn_digests(me.to_str().unwrap_or(""), args.seed, det_n, 3, false) {
                 Ok(d) => {
@@ -1009,7 +1037,7 @@ fn cmd_run(world: &World, args: &Args) -> i32 {
         total += *n as u64;
     }
     let mut sweep = json!(null);
-    if batch.violation.is_none() {
+    if batch.violation.is_none() && !args.research {
         let src = |idx: u64| -> Trace {
             let k = match offsets.binary_search_by(|(o, _, _)| o.cmp(&idx)) {
                 Ok(k) => k,
@@ -1034,7 +1062,7 @@ fn cmd_run(world: &World, args: &Args) -> i32 {
     // thorough tier: exhaustive 32-bit sweep of the canonical encode_to / decode pair (lean loop), all 66
     // 32-bit layouts x 2^32 patterns, split into 4096 chunks per layout over the workers
     let mut sweep32 = json!(null);
-    if args.tier == Tier::Thorough && batch.violation.is_none() && args.canary == 0 {
+    if args.tier == Tier::Thorough && batch.violation.is_none() && args.canary == 0 && !args.research {
         let t1 = Instant::now();
         let lays: Vec<u16> = world.table.iter().enumerate().filter(|(_, o)| o.w == 32).map(|(i, _)| i as u16).collect();
         let chunks_per = 4096u64;
@@ -1109,7 +1137,7 @@ fn cmd_run(world: &World, args: &Args) -> i32 {
     // both tiers: structured sweep of the 64- and 128-bit layouts (lean loop): every pattern of the
     // PRNG-free sub-spaces of gen::structured_pattern through the canonical pair and the byte views
     let mut sweep_wide = json!(null);
-    if batch.violation.is_none() && args.canary == 0 && args.variant == "main" {
+    if batch.violation.is_none() && args.canary == 0 && args.variant == "main" && !args.research {
         let t1 = Instant::now();
         let lays: Vec<u16> = world.table.iter().enumerate().filter(|(_, o)| o.w >= 64).map(|(i, _)| i as u16).collect();
         const CH: u64 = 1 << 17;
@@ -1253,12 +1281,63 @@ fn cmd_run(world: &World, args: &Args) -> i32 {
                 eprintln!("note: the minimised replay {} did not reproduce in a fresh process (hidden shared state in the code under test?)", replay_path);
                 unreproducible = true;
                 violations = 0;
-                if attempt == 0 && args.canary == 0 {
+                if args.workers == 1 && t.seed != 0 {
+                    // found on a single thread and still not reproducible alone: the outcome depends on what
+                    // this thread executed before. Replay the schedule prefix instead of the single execution.
+                    let mut starts = vec![run, run.saturating_sub(3), 0];
+                    starts.dedup();
+                    for a in starts {
+                        let mut d2 = doc.clone();
+                        d2["info"]["prefix"] = json!({"first_run": a, "last_run": run, "tier": tier_name, "workers": 1,
+                            "note": "the recorded execution fails only after the executions that precede it on the same thread; trace and fault above are that last execution"});
+                        let p2 = replay_path.replace(".json", "-prefix.json");
+                        if std::fs::write(&p2, serde_json::to_string_pretty(&d2).unwrap()).is_err() {
+                            break;
+                        }
+                        let ok = std::env::current_exe().ok().and_then(|me| std::process::Command::new(me).args(["replay", &p2]).output().ok()).map(|o| {
+                            o.status.code() == Some(1) && String::from_utf8_lossy(&o.stdout).contains(&format!("REPLAY-VIOLATION check={}", mv.check))
+                        });
+                        if ok == Some(true) {
+                            eprintln!("note: reproduced in a fresh process as the schedule prefix runs {}..={} on one thread", a, run);
+                            println!("VIOLATION property={} replay={}", PROPERTY, p2);
+                            replay_path = p2;
+                            exit = 1;
+                            violations = 1;
+                            unreproducible = false;
+                            break;
+                        }
+                    }
+                }
+                if attempt == 0 && args.canary == 0 && !args.research && args.workers > 1 {
+                    // in a fresh process (this one's state may already be part of the problem), one thread
                     let n = runs.min(4000);
-                    let sb = run_batch(world, &|r| generate(world, seed, r), n, 1, args.tier, &known, false, cap);
-                    serial_research = json!({"histories": sb.completed, "workers": 1, "found_a_violation": sb.violation.is_some()});
-                    eprintln!("note: single-worker re-search over {} histories: {}", sb.completed, if sb.violation.is_some() { "found a violation" } else { "nothing" });
-                    pending = sb.violation;
+                    let evp = format!("{}.research.json", args.evidence.clone().unwrap_or_else(|| "/verif/evidence/C10.json".into()).trim_end_matches(".json"));
+                    let out = std::env::current_exe().ok().and_then(|me| {
+                        std::process::Command::new(me)
+                            .args(["run", "--tier", tier_name, "--seed", &args.seed.to_string(), "--runs", &n.to_string(), "--workers", "1", "--variant", &args.variant, "--research", "--evidence", &evp, "--replay-dir", &args.replay_dir, "--known", &args.known])
+                            .output()
+                            .ok()
+                    });
+                    let _ = std::fs::remove_file(&evp);
+                    match out {
+                        Some(o) => {
+                            let so = String::from_utf8_lossy(&o.stdout).to_string();
+                            let vline = so.lines().find(|l| l.starts_with("VIOLATION")).map(|l| l.to_string());
+                            serial_research = json!({"histories": n, "workers": 1, "fresh_process": true, "exit": o.status.code(), "reported_a_violation_that_replays": vline.is_some()});
+                            eprintln!("note: single-worker re-search over {} histories in a fresh process: {}", n, if vline.is_some() { "found a violation that replays" } else { "nothing that replays" });
+                            if let (Some(1), Some(l)) = (o.status.code(), vline) {
+                                for x in so.lines().filter(|l| l.starts_with("violation in run")) {
+                                    println!("[single-worker re-search] {}", x);
+                                }
+                                println!("{}", l);
+                                replay_path = l.rsplit("replay=").next().unwrap_or("").to_string();
+                                exit = 1;
+                                violations = 1;
+                                unreproducible = false;
+                            }
+                        }
+                        None => eprintln!("note: the single-worker re-search could not be started"),
+                    }
                 }
             }
         }
@@ -1269,7 +1348,7 @@ fn cmd_run(world: &World, args: &Args) -> i32 {
     // alarm-path self-test: only meaningful (and only needed) when the search above held — on a violating
     // tree the alarm path has just been exercised for real, and the canary child could meet the real
     // violation before the planted one
-    if exit == 0 && !unreproducible && args.canary == 0 && args.variant == "main" {
+    if exit == 0 && !unreproducible && args.canary == 0 && args.variant == "main" && !args.research {
         match alarm_path_selftest(args) {
             Ok(v) => alarm_selftest = v,
             Err(e) => {
@@ -1293,7 +1372,7 @@ fn cmd_run(world: &World, args: &Args) -> i32 {
     // equality with this build is reported for information only (call granularity may legitimately differ).
     let mut variants_json = vec![json!({"variant": args.variant, "binary": std::env::current_exe().ok().map(|p| p.display().to_string()), "role": "this process"})];
     for (bin, name, n) in &args.also {
-        if unreproducible {
+        if unreproducible || args.research {
             break; // no point multiplying a non-replayable outcome; go to the interpreter probe
         }
         let evp = format!("{}.{}.json", args.evidence.clone().unwrap_or_else(|| "/verif/evidence/C10.json".into()).trim_end_matches(".json"), name);
